@@ -1218,6 +1218,27 @@ class C07(Prop):
                 yield iso("call", [{"t": "call", "name": "m", "args": [["int", 1]], "kwargs": [["k", ["int", 2]]]}],
                           [], {"a": "1", "c": "7", "kw": "2"}, data, mode)
 
+        # O5 with a resource-limit error raised by the scope-pushing construct itself
+        def withs(n: int, inner: list[dict[str, Any]]) -> list[dict[str, Any]]:
+            for k in range(n):
+                inner = [{"t": "with", "args": [[f"w{k}", ["int", k]]], "body": inner}]
+            return inner
+
+        rng = ["range", ["int", 1], ["int", 2]]
+        for mode in ("sync", "async"):
+            for depth in (1, 2, 3):
+                for cons in ("for", "tablerow", "with", "capture"):
+                    if cons in ("for", "tablerow"):
+                        inner = [{"t": cons, "var": "x", "iter": rng, "body": withs(2, [T("x")]), "else": None}]
+                    elif cons == "with":
+                        inner = withs(3, [T("x")])
+                    else:
+                        inner = [CAPTURE("c", withs(3, [T("x")]))]
+                    for extra in (2, 3, 4, 5, 6):  # one of these puts the limit exactly at `cons`
+                        yield {"kind": "balance", "main": withs(depth, inner), "templates": {}, "data": {},
+                               "err": "depth", "err_path": [cons], "binders": [], "mode": mode,
+                               "limits": {"context_depth_limit": depth + extra}}
+
     # ------------------------------------------------------------------ running
 
     def _sources(self, case: Any, sides: dict[str, str]) -> tuple[str, dict[str, str]]:
@@ -1461,7 +1482,8 @@ class C07(Prop):
     def _check_balance(self, case: Any, res: Result) -> None:  # noqa: PLR0912
         src, templates = self._sources(case, {})
         strict = case["err"] in ("strict", "translate") or (case["err"] == "lambda")
-        env = make_env(templates, shopify=True, undefined=StrictUndefined if strict else None)
+        env = make_env(templates, shopify=True, undefined=StrictUndefined if strict else None,
+                       limits=case.get("limits"))
         tmpl = env.from_string(src)
         data = dict(case["data"])
         data["boom"] = Boom()
